@@ -649,6 +649,9 @@ func (r *proxyStreamReceiver) Run(
 		r.shardManager.RegisterActiveReceiver(r.sourceShardID, r)
 		// Remove only what this incarnation registered: a successor that has taken the shard over owns the entries now.
 		defer r.shardManager.RemoveLocalReceiver(r.sourceShardID, r.ackChan)
+		// A successor force-removes this incarnation's ack channel before it opens its own stream. If that open
+		// fails, nobody owns the shard's entries and RemoveLocalReceiver skips: drop our own active-receiver entry.
+		defer r.shardManager.UnregisterActiveReceiver(r.sourceShardID, r)
 	}
 
 	// init aggregation state
